@@ -418,7 +418,7 @@ pub fn raw_file(cfg: &ConfigSpec, p: &RawParams) -> BoxedStrategy<RawFile>
     let text = prop_oneof![
         9 => proptest::sample::select(TEXTS).prop_map(|t| RawSource::Text(t.to_string())),
         // very long message literals / very long lines
-        1 => (proptest::sample::select(&[300usize, 5_000, 70_000][..]), any::<bool>()).prop_map(|(n, second)| {
+        1 => (proptest::sample::select(&[300usize, 1_500, 4_000][..]), any::<bool>()).prop_map(|(n, second)| {
             let mut t = format!("fn long() {{\n    info!(\"{}\");\n", "y".repeat(n));
             if second
             {
